@@ -30,6 +30,7 @@ V_interval(e) ==
     Fail(e.outcome # "ok" \/ \E k \in 1..Len(e.gets) : ~NearV(e.gets[k][3], IvGet(e.a, e.n, e.gets[k][1], e.gets[k][2]), Tol), "C17.interval_get") \cup
     Fail(e.outcome # "ok" \/ ~SeqOK(e.after_sets, ApplySets(e.a, e.n, e.sets, 1), Tol), "C17.interval_set") \cup
     Fail(e.outcome # "ok" \/ ~MatOK(e.to2d, To2D(e.a, e.n), Tol), "C17.to_2d_array") \cup
+    Fail(e.outcome # "ok" \/ ~MatOK(e.to2d_after_sets, To2D(ApplySets(e.a, e.n, e.sets, 1), e.n), Tol), "C17.to_2d_array") \cup
     Fail(e.outcome # "ok" \/ ~MatOK(e.to2d_closed, To2DClosed(e.a, e.n, TRUE), Tol) \/ ~MatOK(e.to2d_closed_all, To2DClosed(e.a, e.n, FALSE), Tol), "C17.to_2d_array_closed") \cup
     Fail(e.outcome # "ok" \/ e.nr_full # NrFullIntervals(e.a, e.n) \/ e.len # Len(e.a), "C17.interval_counts") \cup
     Fail(e.outcome # "ok" \/ ~SeqOK(e.ov_lin, OversampleLinspace(e.a, e.num), Tol) \/ ~SeqOK(e.ov_pw, OversamplePiecewise(e.a, e.num), Tol) \/ e.ov_n # e.n * e.num, "C17.interval_oversample")
